@@ -2,11 +2,11 @@ package main
 
 import (
 	"bytes"
-	"sort"
 	"encoding/json"
 	"fmt"
 	"math/rand"
 	"os"
+	"sort"
 	"sync"
 	"time"
 
